@@ -35,8 +35,8 @@ def shard_setup(obs) -> None:
 
 
 def gen_cases(tier: str, seed: int):
-    n = {"quick": 250, "thorough": 3000}[tier]
-    ncoef = {"quick": 150, "thorough": 2000}[tier]
+    n = {"quick": 250, "thorough": 8000}[tier]
+    ncoef = {"quick": 150, "thorough": 10000}[tier]
     rng = np.random.default_rng([seed, 6])
     combos = [(k, ik) for k in zoo.SYSTEMS for ik in zoo.compatible_integrators(k)]
     for i in range(n):
